@@ -130,10 +130,37 @@ func slotAgreement(c *Ctx, prop string, which map[string]bool) {
 	c.Rule(R("class"), "a field is printed through the formatter whose output the parser's reader for that slot accepts: identifiers through QuoteIdent, strings through QuoteString, durations through FormatDuration, integers through integer formatting, nodes through their own String; a raw identifier or Go-formatted duration does not parse back")
 	c.Rule(R("keyword"), "the keyword the printer writes in front of a field is one of the keywords the parser consumes in front of the store into that field (LIMIT/SLIMIT, OFFSET/SOFFSET, FUTURE/PAST ... are not cross-wired on either side)")
 	c.Rule(R("order"), "for parse functions that accept clauses in one fixed order, the printer emits the fields in the order the parser stores them (shallow, unconditional-order stores only; option loops are exempt)")
+	c.Rule(R("guards"), "the printer does not make one clause's output depend on another clause the parser reads independently: when String writes field F only inside `if <other fields>` and the parser fills F and each of those fields from separate optional clauses with their own keywords, a statement with F but without them prints without F")
 	nPairs, nClassified := 0, 0
 	for _, pr := range p.slotPairs() {
 		tname := pr.T.Obj().Name()
 		str := p.Method(tname, "String")
+		if which["coverage"] {
+			sites := p.parseStoreSites(pr.fn, pr.T, tt)
+			for _, g := range p.printGuards(str) {
+				for _, set := range g.sets {
+					hasSelf, allIndep := false, len(set) > 0
+					for _, G := range set {
+						if G == g.field {
+							hasSelf = true
+							continue
+						}
+						if ind, _ := independentClauses(sites, g.field, G); !ind {
+							allIndep = false
+						}
+					}
+					if hasSelf || len(set) == 0 {
+						continue
+					}
+					key := fmt.Sprintf("%s.String: %s written only under %v", tname, g.field, set)
+					if allIndep {
+						c.Bad(R("guards"), key, g.pos.Pos(), fmt.Sprintf("%s reads %s and %v as independent optional clauses: a statement with %s alone loses it on printing", FuncName(pr.fn), g.field, set, g.field))
+					} else {
+						c.OK(R("guards"), key, g.pos.Pos(), "the guarding field is filled together with or on the way to "+g.field)
+					}
+				}
+			}
+		}
 		pe := p.parseEvents(pr.fn, pr.T, tt)
 		qe := p.printEvents(str)
 		nStores := 0
